@@ -25,6 +25,9 @@ def run(ctx):
     R.check_eq(ctx, "C06.EQ")
     R.check_archive(ctx, "C06.ARCHIVE")
 
+    # ---------------------------------------------------------------- C06.WALL
+    R.check_walltime_loop(ctx, "C06.WALL")
+
     # ---------------------------------------------------------------- C06.ARGS
     from ..rules_common import check_call_arguments
     check_call_arguments(ctx, "C06.ARGS", "C06")
